@@ -122,6 +122,8 @@ pub fn spaces(tier: Tier) -> Vec<Space<'static>> {
         };
         check_value(&v, acc)
     }));
+    sp.push(Space::new("wide (4-6 siblings over 5 kinds)", refmodel::gen::wide_count(), |i, acc| crate::checks::scale::wide_deep_doc(&refmodel::gen::wide_nth(i), acc, 4)));
+    sp.push(Space::new("deep (4-6 levels, 5 sibling patterns per level)", refmodel::gen::deep_count(), |i, acc| crate::checks::scale::wide_deep_doc(&refmodel::gen::deep_nth(i), acc, 4)));
     let sd = crate::checks::scale::docs().clone();
     sp.push(Space::new("scale (counts/lengths/offsets across 2^8, 2^16, 2^20)", sd.len() as u64, move |i, acc| crate::checks::scale::serde_doc(&sd[i as usize], acc)));
     if tier.thorough() {
